@@ -173,7 +173,7 @@ QEV = C_POOL[1]                    # queued events
 EXC = ValueError("boom")
 
 
-def _world_j(nw, b0, b1, b2, q, wid, live, snap, policy=None, oth=0):
+def _world_j(nw, b0, b1, b2, q, wid, live, snap, policy=None, oth=0, old_snap=False):
     """Step "j" (accepts EvA/EvB/EvC, ``nw`` workers).  Live buffer "buf" = LIVE[:live]; the ticking worker ``wid``
     saw LIVE[:snap] (snap <= live: the buffer grew since) or OLD[:snap] (snap > live: the buffer was popped since, and
     possibly refilled).  The other busy workers saw the current buffer.  A second buffer "other" is never touched by the
@@ -183,7 +183,8 @@ def _world_j(nw, b0, b1, b2, q, wid, live, snap, policy=None, oth=0):
     b0, b1, b2 = concb(b0), concb(b1), concb(b2)
     cfg = step_config([EvA, EvB, EvC], nw, policy)
     livebuf = LIVE[:live]
-    snapbuf = LIVE[:snap] if snap <= live else OLD[:snap]
+    # old_snap: the ticking worker's snapshot is from an EARLIER round (that set was completed and deleted, the buffer refilled since)
+    snapbuf = LIVE[:snap] if (snap <= live and not old_snap) else OLD[:snap]
     ips = []
     for i in busy_ids(3, (b0, b1, b2)):
         sb = snapbuf if i == wid else livebuf
@@ -219,15 +220,16 @@ def _reruns(cmds, wid, ev):
             partitions_thorough=[f"nw == {n} and live == {l}" for n in (1, 2, 3) for l in (0, 1, 2)],
             what="AddCollectedEvent: stale snapshot (live buffer longer than the snapshot) => nothing appended, the SAME "
                  "worker re-run with a refreshed snapshot; otherwise appended exactly once and the invocation committed",
-            bounds={"num_workers": "1..3", "queue": "0..2", "live/snapshot length": "0..2 each (any relation)", "second buffer": "unchanged / deleted since the snapshot / grown since"})
-def ob_reducer_add(nw: int, b0: bool, b1: bool, b2: bool, q: int, wid: int, live: int, snap: int, oth: int = 0) -> bool:
+            bounds={"num_workers": "1..3", "queue": "0..2", "live/snapshot length": "0..2 each (any relation; the snapshot a prefix of the live buffer or from an earlier, already completed round)", "second buffer": "unchanged / deleted since the snapshot / grown since"})
+def ob_reducer_add(nw: int, b0: bool, b1: bool, b2: bool, q: int, wid: int, live: int, snap: int, oth: int = 0, old_snap: bool = False) -> bool:
     """
     pre: _valid_j(nw, b0, b1, b2, q, wid) and q <= QMAX
     pre: 0 <= live <= 2 and 0 <= snap <= 2 and 0 <= oth <= 2
     post: _
     """
     nw, q, wid, live, snap, oth = conc(nw, 1, 3), conc(q, 0, 2), conc(wid, 0, 2), conc(live, 0, 2), conc(snap, 0, 2), conc(oth, 0, 2)
-    st = _world_j(nw, b0, b1, b2, q, wid, live, snap, oth=oth)
+    old_snap = concb(old_snap)
+    st = _world_j(nw, b0, b1, b2, q, wid, live, snap, oth=oth, old_snap=old_snap)
     other_live = [] if oth == 1 else ([C_POOL[0], C_POOL[1]] if oth == 2 else [C_POOL[0]])
     res = [AddCollectedEvent(event_id="buf", event=X), StepWorkerResult(result=None)]
     tick = mk_step_result("j", wid, X, res)
